@@ -1,8 +1,10 @@
 (** Primitive-float mirror of Model/Ticks.v (Coq's [PrimFloat] = the host's IEEE-754 binary64, evaluated
-    by the VM).  Same operations in the same order; used for the exhaustive 1-second sweep (theorems C10_1sec_...)
+    by the VM).  Same operations in the same order (proved equal to Model/Ticks.v in
+    Proofs/Ticks_equiv.v); used for the exhaustive 1-second sweep (theorems C10_1sec_...)
     where the inductive Flocq floats are three orders of magnitude too slow.  Every harness case is
     evaluated with BOTH models and compared bit-exactly with the Go implementation (Corr/C10.agrees). *)
 From Coq Require Import ZArith List Bool Lia Floats Uint63.
+From Flocq Require Import IEEE754.BinarySingleNaN IEEE754.PrimFloat.
 Require Import MS.Base.GoInt MS.Generated.Src_ticks.
 Local Open Scope Z_scope.
 
@@ -10,20 +12,13 @@ Definition pf_of_Z (z : Z) : float := PrimFloat.of_uint63 (Uint63.of_Z z).      
 Definition pf_cst (m e : Z) : float :=
   match m with Zpos p => SF2Prim (S754_finite false p e) | _ => PrimFloat.zero end.
 
-(** truncation toward zero of a finite NON-NEGATIVE float, as an integer:
-    x = m * 2^e with m in [0.5, 1) (frshiftexp); normfr_mantissa m = m * 2^53 *)
-Definition pf_trunc (x : float) : Z :=
-  let '(m, e) := PrimFloat.frshiftexp x in
-  let ez := Uint63.to_Z e - FloatOps.shift in
-  if ez <=? 0 then 0
-  else if ez <=? 53 then Uint63.to_Z (Uint63.lsr (PrimFloat.normfr_mantissa m) (Uint63.of_Z (53 - ez)))
-  else Uint63.to_Z (PrimFloat.normfr_mantissa m) * 2 ^ (ez - 53).
-
-(** math.Floor / math.Round for 0 <= x < 2^53 *)
-Definition pf_floor (x : float) : float := pf_of_Z (pf_trunc x).
-Definition pf_round (x : float) : float :=
-  let t := pf_of_Z (pf_trunc x) in
-  if PrimFloat.leb (pf_cst 4503599627370496 (-53)) (PrimFloat.sub x t) then PrimFloat.add t PrimFloat.one else t.
+(** float -> integer rounding is delegated to the SAME Flocq functions the inductive model uses, applied to
+    the exact image [Prim2B x] of the primitive float (computable: Prim2SF + SF2B), so that the
+    equivalence with Model/Ticks.v (Proofs/Ticks_equiv.v) needs only Flocq's own equivalence lemmas
+    for + - * / <= and int -> float. *)
+Definition pf_trunc (x : float) : Z := Btrunc (Prim2B x).
+Definition pf_floor (x : float) : float := B2Prim (Bnearbyint (prec_lt_emax_ := Hmax) mode_DN (Prim2B x)).
+Definition pf_round (x : float) : float := B2Prim (Bnearbyint (prec_lt_emax_ := Hmax) mode_NA (Prim2B x)).
 
 Definition pc_enc_tpi : float := pf_cst enc_tpi_m enc_tpi_e.
 Definition pc_dec_tpi : float := pf_cst dec_tpi_m dec_tpi_e.
@@ -41,7 +36,7 @@ Definition enc_pf (ipd d : Z) : Z :=
 Definition dec_pf (start ipd ticks : Z) : Z * Z :=
   let fs := PrimFloat.div (pf_of_Z ticks) (PrimFloat.mul (pf_of_Z ipd) pc_dec_tpi) in
   let sub := PrimFloat.mul pc_1e9 (PrimFloat.sub fs (pf_floor fs)) in
-  let '(sub, fs) := (if PrimFloat.leb pc_1e9 sub then (PrimFloat.sub sub pc_1e9, PrimFloat.add fs PrimFloat.one)
+  let '(sub, fs) := (if PrimFloat.leb pc_1e9 sub then (PrimFloat.sub sub pc_1e9, PrimFloat.add fs (pf_of_Z 1))
                      else (sub, fs)) in
   let sec := wrap U64 (start + wrap U64 (pf_trunc (PrimFloat.div (pf_round (PrimFloat.mul fs pc_1e8)) pc_1e8))) in
   let nsec := wrap U32 (wrap I64 (pf_trunc (PrimFloat.add sub pc_half))) in
